@@ -828,6 +828,25 @@ theorem eveK_spec (pn pd xn xd fuel : Nat) (hpn : 0 < pn) (hp : pn < pd) (hxn : 
     have : ⌊Real.logb ((pn : ℝ) / pd) ((xn : ℝ) / xd)⌋ = K := by omega
     rw [this, max_eq_left (by omega)]
 
+/-- bases above 1 (`double_at > 1`): the swapped search computes `max(0, ⌊log_p x⌋)` as well -/
+theorem eveK_spec_gt (pn pd xn xd fuel : Nat) (hpd : 0 < pd) (hp : pd < pn) (hxn : 0 < xn) (hxd : 0 < xd)
+    (hfuel : eveK pd pn xd xn fuel 0 < fuel) :
+    (eveK pd pn xd xn fuel 0 : ℤ) = max ⌊Real.logb ((pn : ℝ) / pd) ((xn : ℝ) / xd)⌋ 0 := by
+  rw [eveK_spec pd pn xd xn fuel hpd hp hxd hxn hfuel]
+  have h1 : ((pd : ℝ) / pn) = ((pn : ℝ) / pd)⁻¹ := by rw [inv_div]
+  have h2 : ((xd : ℝ) / xn) = ((xn : ℝ) / xd)⁻¹ := by rw [inv_div]
+  rw [h1, h2, Real.logb_inv_base, Real.logb_inv, neg_neg]
+
+theorem eveKAny_spec (pn pd xn xd fuel : Nat) (hpn : 0 < pn) (hpd : 0 < pd) (hne : pn ≠ pd) (hxn : 0 < xn) (hxd : 0 < xd)
+    (hfuel : eveKAny pn pd xn xd fuel < fuel) :
+    (eveKAny pn pd xn xd fuel : ℤ) = max ⌊Real.logb ((pn : ℝ) / pd) ((xn : ℝ) / xd)⌋ 0 := by
+  unfold eveKAny at hfuel ⊢
+  by_cases h : pn < pd
+  · simp only [h, if_true] at hfuel ⊢
+    exact eveK_spec pn pd xn xd fuel hpn h hxn hxd hfuel
+  · simp only [h, if_false] at hfuel ⊢
+    exact eveK_spec_gt pn pd xn xd fuel hpd (by omega) hxn hxd hfuel
+
 theorem eveBatches_max (n0 : Nat) (nmax : Option Nat) (dt : ℤ) :
     eveBatches n0 nmax dt = eveBatches n0 nmax (max dt 0) := by
   simp [eveBatches]
@@ -880,6 +899,25 @@ theorem eve_model_eq_code (m den v0n v0d pn pd fuel n0 : Nat) (nmax : Option Nat
   rw [eveBatches_max n0 nmax (codeDt _ _ _), codeDt_max _ _ _ (by positivity) (by positivity) hfrac,
     eveK_spec pn pd _ _ fuel hpn hp (by positivity) (by positivity) hfuel, hx]
 
+/-- the same for every base `double_at ≠ 1`, below or above 1 (what the model's Eve action uses) -/
+theorem eve_model_eq_code_any (m den v0n v0d pn pd fuel n0 : Nat) (nmax : Option Nat)
+    (hm : 0 < m) (hden : 0 < den) (hv0n : 0 < v0n) (hv0d : 0 < v0d) (hpn : 0 < pn) (hpd : 0 < pd) (hne : pn ≠ pd)
+    (hfuel : eveKAny pn pd (m * v0d) (den * v0n) fuel < fuel)
+    (hfrac : Int.fract (Real.logb ((pn : ℝ) / pd) (((m : ℝ) / den) / ((v0n : ℝ) / v0d))) < 1 - EPS) :
+    eveBatches n0 nmax (eveKAny pn pd (m * v0d) (den * v0n) fuel : ℤ) =
+      eveBatches n0 nmax (codeDt ((m : ℝ) / den) ((v0n : ℝ) / v0d) ((pn : ℝ) / pd)) := by
+  have hx : (((m * v0d : ℕ) : ℝ) / ((den * v0n : ℕ) : ℝ)) = ((m : ℝ) / den) / ((v0n : ℝ) / v0d) := by
+    push_cast
+    have : (den : ℝ) ≠ 0 := by positivity
+    have : (v0n : ℝ) ≠ 0 := by positivity
+    have : (v0d : ℝ) ≠ 0 := by positivity
+    field_simp
+  rw [eveBatches_max n0 nmax (codeDt _ _ _), codeDt_max _ _ _ (by positivity) (by positivity) hfrac,
+    eveKAny_spec pn pd _ _ fuel hpn hpd hne (by positivity) (by positivity) hfuel, hx]
+
+/-- a base above 1: `v = 8`, `v0 = 1`, `p = 2` gives k = 3 -/
+example : eveKAny 2 1 (8 * 1) (1 * 1) 200 = 3 := by decide
+
 /-- non-vacuity of `eve_formula` / `eve_model_eq_code`: `v = 1/4`, `v0 = 1`, `p = 1/2` (k = 2, 4·n0 batches) -/
 example : Int.fract (Real.logb (1 / 2 : ℝ) ((1 / 4) / 1)) < 1 - EPS := by
   have : Real.logb (1 / 2 : ℝ) ((1 / 4) / 1) = (2 : ℕ) := by
@@ -913,7 +951,7 @@ example : Int.fract (Real.logb (1 / 2 : ℝ) ((3 / 8) / 1)) < 1 - EPS := by
 theorem eve_action (idx : Nat) (s : Solver) (c : EveCfg) (v : Int) (rest : List Int) (hv : 0 < v)
     (hh : (if c.useTrain then s.train else s.valid) = v :: rest) :
     ((Action.eve c).run idx s).1.nTrain =
-      eveBatches c.n0 c.nmax (eveK c.pn c.pd (v.toNat * c.v0d) (c.den * c.v0n) eveFuel 0 : Nat) := by
+      eveBatches c.n0 c.nmax (eveKAny c.pn c.pd (v.toNat * c.v0d) (c.den * c.v0n) eveFuel : Nat) := by
   simp only [Action.run, hh]
   rw [if_neg (by omega)]
 
